@@ -7,6 +7,7 @@ mod c05;
 mod c03;
 mod c11;
 mod c11for;
+mod c11store;
 mod smoke;
 pub mod util;
 
